@@ -142,6 +142,37 @@ theorem prune_run_safe (r : Repo) (first : List Nat) (newPacks : List Pack) (idx
     obtain ⟨h1, h2⟩ := s3 i hi
     exact s2.unlisted i hi (fun hmem => h2 hmem) p hp
 
+/-- a run with one injected failure at operation `k` ends in the state after the first `k` operations -/
+theorem runWithFault_state : ∀ (ops : List Op) (r : Repo) (k : Nat),
+    (runWithFault r k ops).1 = applyAll r (ops.take k)
+  | [], r, k => by simp [runWithFault, applyAll]
+  | o :: ops, r, k => by
+    unfold runWithFault
+    by_cases hk : k = 0
+    · simp [hk, applyAll]
+    · obtain ⟨j, rfl⟩ : ∃ j, k = j + 1 := ⟨k - 1, by omega⟩
+      simp only [hk, if_false, Nat.add_sub_cancel, List.take_succ_cons, applyAll, List.foldl_cons]
+      exact runWithFault_state ops (apply r o) j
+
+/-- **A prune run that fails before its clean-up phase has removed nothing that is listed**: when the failing operation is
+one of the early removals of unreferenced packs, the write of a repacked pack or the write of the new index file
+(`k ≤ |first| + |newPacks|`), the index files and the snapshot files are exactly those from before the run. -/
+theorem prune_run_fault_before_cleanup (r : Repo) (first : List Nat) (newPacks : List Pack) (idx : Option IndexFile)
+    (rmIdx rmPacks : List Nat) (k : Nat) (hk : k ≤ first.length + newPacks.length) :
+    (runWithFault r k (pruneRunOps first newPacks idx rmIdx rmPacks)).1.indexes = r.indexes ∧
+    (runWithFault r k (pruneRunOps first newPacks idx rmIdx rmPacks)).1.snaps = r.snaps := by
+  rw [runWithFault_state]
+  have e : (pruneRunOps first newPacks idx rmIdx rmPacks).take k =
+      (first.take k).map Op.removePack ++ (newPacks.take (k - first.length)).map Op.writePack := by
+    unfold pruneRunOps
+    rw [List.append_assoc, List.append_assoc]
+    rw [List.take_append_of_le_length (by simp; omega), List.take_append]
+    simp [List.map_take]
+  rw [e, applyAll_append]
+  have f1 := applyAll_removePacks_fields (first.take k) r
+  have f2 := applyAll_writePacks_fields (newPacks.take (k - first.length)) (applyAll r ((first.take k).map Op.removePack))
+  exact ⟨f2.1.trans f1.1, f2.2.trans f1.2⟩
+
 /-- pack and index operations leave the snapshot files alone -/
 def Op.noSnap : Op → Bool
   | .writeSnap _ | .removeSnap _ => false
